@@ -43,7 +43,9 @@ def run(tier):
     for n, t, k in ([(3, 1, 5), (3, 2, 2), (4, 1, 4)] if quick else [(3, 1, 40), (3, 2, 20), (4, 2, 40), (2, 1, 20), (4, 3, 10), (3, 0, 10)]):
         allh, r = kl.histories(wd, n, t, maxops=1)
         states += r["distinct"]; trans += r["generated"]
-        hs = [h for h in allh if h["probe"]["kind"] == "sign" and h["probe"]["expect"] == "ok" and not kl.has_op(h, "store") and not kl.has_op(h, "refresh")]
+        # (a CMP session of a single party never returns from its constructor: known finding of C20, not repeated here)
+        hs = [h for h in allh if h["probe"]["kind"] == "sign" and h["probe"]["expect"] == "ok" and not kl.has_op(h, "store") and not kl.has_op(h, "refresh")
+              and len(h["probe"]["S"]) >= 2]
         # prefer small, non-prefix signer sets (cost grows with the square of the set size)
         hs.sort(key=lambda h: (len(h["probe"]["S"]), -sum(h["probe"]["S"])))
         worlds.append({"scheme": "cmp", "n": n, "t": t, "ids": "short", "deal": True, "hists": kl.sample(hs[:max(k * 3, 6)], k, sd, "c01cmp%d%d" % (n, t))})
